@@ -205,10 +205,10 @@ pub fn record(seed: u64, tier: &str, out: &str) {
     tab_unsigned!(u64, t, "u64");
     tab_unsigned!(u128, t, "u128");
     tab_unsigned!(usize, t, "usize");
-    cube!(i64, t, "i64", 12);
+    cube!(i64, t, "i64", if thorough { 16 } else { 12 });
     cube!(i32, t, "i32", if thorough { 12 } else { 8 });
     cube!(i128, t, "i128", if thorough { 12 } else { 6 });
-    crttab!(i64, t, "i64", if thorough { 24 } else { 18 });
+    crttab!(i64, t, "i64", if thorough { 36 } else { 18 });
     if thorough {
         crttab!(i32, t, "i32", 12);
         crttab!(i128, t, "i128", 12);
@@ -229,7 +229,7 @@ pub fn record(seed: u64, tier: &str, out: &str) {
     edge_u128(&mut t);
     let tables = t.events;
     // sampled large operands
-    let n = if thorough { 6000 } else { 2400 };
+    let n = if thorough { 150_000 } else { 2400 };
     for k in 0..n {
         match k % 6 {
             0 | 1 => {
